@@ -31,7 +31,10 @@ LinesB == {<<<<R(1, 0, NoA)>>, <<R(2, 0, NoA)>>>>,
            <<<<R(1, 0, A1)>>, <<R(2, 0, A2)>>>>,
            <<<<R(1, 0, NoA), R(2, 0, A1)>>, <<R(3, 0, A1)>>>>,
            <<<<R(1, 1, NoA)>>, <<R(2, 1, NoA)>>, <<R(3, 0, NoA), R(1, 1, A1)>>>>,
-           <<<<R(1, 0, A1), R(2, 0, NoA), R(3, 0, A2)>>>>}
+           <<<<R(1, 0, A1), R(2, 0, NoA), R(3, 0, A2)>>>>,
+           \* empty lines: a <br/> before the first text, two in a row
+           <<<<>>, <<R(1, 0, NoA)>>>>,
+           <<<<R(1, 0, A1)>>, <<>>, <<R(2, 0, NoA)>>>>}
 S1 == <<[id |-> 1, parent |-> 0, attrs |-> A1]>>
 TruthsB == {[Base EXCEPT !.styles = S1, !.cues = <<Cue(0, 1500, 0, 0, NoA, ls)>>] : ls \in LinesB}
            \cup {[Base EXCEPT !.styles = S1, !.cues = <<Cue(0, 1500, 0, 0, NoA, l1), Cue(2000, 3000, 1, 0, A1, l2)>>] : l1 \in LinesB, l2 \in LinesB}
